@@ -141,6 +141,9 @@ func runC03(env *core.Env, res *core.Result) {
 	for i := env.From; i < env.To; i++ {
 		res.Cases++
 		c03One(i, env.Rand(i), res)
+		if cronHung {
+			core.AbortWorker(res, env.To-i-1)
+		}
 	}
 }
 
